@@ -54,7 +54,49 @@ def shards(tier):
     return 8 if tier == "quick" else 16
 
 
-def observe(substitute, ZConfig, s, mapping):
+class GetOnly:
+    """'a dict or any type that supports the get() method of the mapping
+    protocol' (substitute's own description of its second argument)."""
+
+    def __init__(self, d):
+        self._d = d
+
+    def get(self, key, default=None):
+        return self._d.get(key, default)
+
+
+class Scoped(dict):
+    """A dict subclass whose get() also consults an enclosing scope."""
+
+    def __init__(self, outer):
+        dict.__init__(self)
+        self.outer = outer
+
+    def get(self, key, default=None):
+        if key in self:
+            return self[key]
+        return self.outer.get(key, default)
+
+
+MAPPING_KINDS = ["dict", "get-only", "scoped", "proxy", "chain"]
+
+
+def as_kind(mapping, kind):
+    if kind == "get-only":
+        return GetOnly(mapping)
+    if kind == "scoped":
+        return Scoped(mapping)
+    if kind == "proxy":
+        import types
+        return types.MappingProxyType(mapping)
+    if kind == "chain":
+        import collections
+        return collections.ChainMap({}, mapping)
+    return mapping
+
+
+def observe(substitute, ZConfig, s, mapping, kind="dict"):
+    mapping = as_kind(mapping, kind)
     try:
         r = substitute(s, mapping)
     except ZConfig.SubstitutionReplacementError as e:
@@ -177,12 +219,18 @@ def check_string(ctx, substitute, ZConfig, s, rng=None, family="enum"):
         res.evaluations += 1
         exp = refsubst.subst(s, mapping, env)
         touched = sorted(set(enames) | set(env))
+        # the mapping is whatever supports get(): rotate the kinds
+        kind = MAPPING_KINDS[res.evaluations % len(MAPPING_KINDS)] \
+            if dnames else "dict"
+        if kind != "dict":
+            res.count("mapping_" + kind)
         if touched:
             with EnvPatch(touched, env):
-                obs = observe(substitute, ZConfig, s, mapping)
+                obs = observe(substitute, ZConfig, s, mapping, kind)
         else:
-            obs = observe(substitute, ZConfig, s, mapping)
-        case = {"op": "substitute", "s": s, "mapping": mapping, "env": env}
+            obs = observe(substitute, ZConfig, s, mapping, kind)
+        case = {"op": "substitute", "s": s, "mapping": mapping, "env": env,
+                "mapping_kind": kind}
         if exp[0] == "unjudged":
             res.count("unjudged")
             res.sample("unjudged", case, 1)
@@ -354,6 +402,7 @@ def replay(ctx, case):
     enames = sorted(set(enames) | set(env))
     exp = refsubst.subst(s, mapping, env)
     with EnvPatch(enames, env):
-        obs = observe(substitute, ZConfig, s, mapping)
+        obs = observe(substitute, ZConfig, s, mapping,
+                      case.get("mapping_kind", "dict"))
     if exp[0] != "unjudged" and not agree(exp, obs, s):
         ctx.res.violate("substitute-disagrees", case, list(exp), list(obs))
